@@ -110,5 +110,44 @@ def step (s : S) (toks : List String) : S × List String :=
     | _, _, _, _ => (s, ["bad-op"])
   | _ => (s, ["bad-op"])
 
+def parseKind? : String → Option Kind
+  | "counter" => some .counter | "values" => some .values | "unique" => some .unique | _ => none
+
+def pre (p : String) (ls : List String) : List String := ls.map (fun l => p ++ " " ++ l)
+
+/-- two-shard operations act on both shards (observations prefixed s0 / s1); everything else is a single-shard operation on s0 -/
+def stepA (a : A2) (toks : List String) : A2 × List String :=
+  match toks with
+  | ["init2", t0, hw, hws] => match t0.toNat?, hw.toNat?, hws.toNat? with
+    | some t0, some hw, some hws => (init2 t0 hw hws, [])
+    | _, _, _ => (a, ["bad-op"])
+  | ["am2", kind, k1, k2, start, ts, res, hash] =>
+    match parseKind? kind, k1.toNat?, k2.toNat?, start.toNat?, ts.toNat?, res.toNat?, hash.toNat? with
+    | some kind, some k1, some k2, some start, some ts, some res, some hash =>
+      if k1 == 1 || k1 == 2 then
+        let r := am2Step a kind k1 k2 start ts res hash
+        let rp := r.2.1
+        let ro := r.2.2
+        let o0 := if k1 == 1 then rp else ro
+        let o1 := if k1 == 1 then ro else rp
+        (r.1, ["s0 " ++ placedObs r.1.s0 o0, "s1 " ++ placedObs r.1.s1 o1])
+      else (a, ["bad-op"])
+    | _, _, _, _, _, _, _ => (a, ["bad-op"])
+  | ["flush2", ms] =>
+    let r0 := step a.s0 ["flush", ms]
+    let r1 := step a.s1 ["flush", ms]
+    ({ s0 := r0.1, s1 := r1.1 }, pre "s0" r0.2 ++ pre "s1" r1.2)
+  | ["drain2"] =>
+    let r0 := step a.s0 ["drain"]
+    let r1 := step a.s1 ["drain"]
+    ({ s0 := r0.1, s1 := r1.1 }, pre "s0" r0.2 ++ pre "s1" r1.2)
+  | ["flushall2"] =>
+    let r0 := step a.s0 ["flushall"]
+    let r1 := step a.s1 ["flushall"]
+    ({ s0 := r0.1, s1 := r1.1 }, pre "s0" r0.2 ++ pre "s1" r1.2)
+  | _ =>
+    let r := step a.s0 toks
+    ({ a with s0 := r.1 }, r.2)
+
 def main : IO Unit :=
-  Driver.run { init := init 1000 5 15, step := step }
+  Driver.run { init := init2 1000 5 15, step := stepA }
